@@ -14,6 +14,8 @@ import Driver.Ops.C18
 import Driver.Ops.C19
 import Driver.Ops.C20
 import Driver.Ops.Std
+import Driver.Ops.C09
+import Driver.Ops.C10
 namespace ZVD
 
 def allOps : OpTable :=
@@ -32,6 +34,8 @@ def allOps : OpTable :=
   ++ opsC19
   ++ opsC20
   ++ opsStd
+  ++ opsC09
+  ++ opsC10
 
 def dispatch (op : String) (a : Args) : Except String String :=
   match allOps.find? (·.1 == op) with
